@@ -1230,7 +1230,9 @@ class SuccessionDiagram:
         Expand the succession diagram and search for attractors using default methods.
         """
         self.expand_block()
-        for node_id in self.node_ids():
+        # Only search the expanded nodes: the stub nodes that remain after block
+        # expansion contain no attractors that are not found in the expanded nodes.
+        for node_id in self.expanded_ids():
             self.node_attractor_seeds(node_id, compute=True)
 
     def expand_scc(self, find_motif_avoidant_attractors: bool = True) -> bool:
